@@ -16,6 +16,8 @@ def thread_line(rng, kind, n):
         return "r exc %d" % (1 + n)
     if kind == "drop":
         return "r drop"
+    if kind == "throwv":
+        return "r throwv"
     if kind == "d":
         return "d"
     return "w " + kind
@@ -49,7 +51,12 @@ def gen_random(rng, count, min_res, max_res, min_wait, max_wait):
         threads = [thread_line(rng, k, j) for j, k in enumerate(kinds)]
         n = len(threads)
         sched = random_sched(rng, n, rng.randint(0, 8 * n))
-        c = make_case(threads, sched, rng.choice(TYPES))
+        T = rng.choice(TYPES)
+        if nres and rng.random() < 0.06:
+            # a payload type whose construction throws inside set_value(), after the claim
+            T = "thrower"
+            threads = [("r throwv" if (t.startswith("r ") and rng.random() < 0.5) else t) for t in threads]
+        c = make_case(threads, sched, T)
         if "d" not in kinds and (force_assign or rng.random() < 0.5):
             # the controller ends the promise's life by move-assigning an empty promise over it (must drop the future)
             c["lines"].insert(len(c["lines"]) - 2, "assign-end")
@@ -93,7 +100,7 @@ def parse(case, out):
         if not w:
             continue
         if w[0] == "ret":
-            info["rets"].setdefault(int(w[1][1:]), []).append(int(w[2]))
+            info["rets"].setdefault(int(w[1][1:]), []).append(1 if w[2] == "threw" else int(w[2]))
         elif w[0] == "obs":
             info["obs"].setdefault(int(w[1][1:]), []).append(w[2])
         elif w[0] == "final":
@@ -116,6 +123,8 @@ def parse(case, out):
 
 
 def expected_outcome(tline, T):
+    if tline[1] == "throwv":
+        return "canceled"
     if tline[1] == "value":
         return "v" if T == "void" else "v:" + tline[2]
     if tline[1] == "exc":
